@@ -195,8 +195,10 @@ func (e *Eng) oblige(st *State, kind, anchor, goal string, pos token.Pos) {
 	sb.WriteString(fmt.Sprintf("(assert %s)\n(assert (not %s))\n(check-sat)\n(get-model)\n", st.path, goal))
 	body := sb.String()
 	e.obls = append(e.obls, &Obligation{Name: name, Script: preambleFor(body) + body, Goal: goal, Pos: e.fset.Position(pos)})
-	// subsequent code may assume it
-	e.assume(st, goal)
+	// subsequent code may assume it (postconditions are checked independently of each other)
+	if kind != "ensures" && kind != "noescape" {
+		e.assume(st, goal)
+	}
 }
 
 // ---------- sorts ----------
@@ -402,7 +404,8 @@ func kindDigit(t types.Type) int {
 }
 
 func (e *Eng) tagOf(t types.Type) int {
-	k := types.TypeString(t, nil)
+	k := types.TypeString(types.Unalias(t), nil)
+	k = strings.ReplaceAll(k, "interface{}", "any")
 	if n, ok := (*e.allTags)[k]; ok {
 		return n
 	}
